@@ -7,6 +7,8 @@ import NucsProofs.Propagators.Counting
 import NucsProofs.Propagators.Dummy
 import NucsProofs.Propagators.Element
 import NucsProofs.Propagators.ExactOfSupport
+import NucsProofs.Propagators.GccExact
+import NucsProofs.Propagators.GccPortSound
 import NucsProofs.Propagators.GccReg
 import NucsProofs.Propagators.Lex
 import NucsProofs.Propagators.MinMax
@@ -68,5 +70,19 @@ theorem C14_alldifferent_is_port (ps : List Int) (B : Box) (hne : B ≠ []) (hdo
 /-- a non-failing answer of the port satisfies Hall's condition and is pruned with respect to every Hall interval -/
 theorem C14_alldifferent_hall (ps : List Int) (B : Box) (hne : B ≠ []) (hdom : ∀ d ∈ B, d.1 ≤ d.2)
     (B' : Box) (h : alldifferent ps B = .ok (.cons, B')) : HallOK B' ∧ HallPruned B' := port_hall_pruned ps B hne hdom B' h
+
+/-- gcc, raw port, PARTIAL: exactness (every bound of the answer has a support, a second call changes nothing) is proved
+    from ONE explicit hypothesis that is tested, not proved: both bounds of every variable of the answer have a support in the
+    LOWER-capacity relaxation of the input box (`LbcSupported`; the completeness half of the two lower-capacity passes).  Proved
+    unconditionally: the upper-capacity supports, the combination of a lower and an upper support into a gcc support (Quimper et
+    al.'s alternating-path step), and that a supported answer is a fixpoint of the port (`gcc_port_fixpoint_of_supported`). -/
+theorem C14_gcc_port_exact_partial (ps : List Int) (B : Box) (hc : Contract .gcc ps B) (hB : B.Nonempty)
+    (hu : ∀ j, j < (ps.length - 1) / 2 → 1 ≤ getI ps (1 + (ps.length - 1) / 2 + j))
+    (st : Status) (B' : Box) (h : gcc ps B = .ok (st, B')) (hst : st ≠ .inc)
+    (hlbc : ∀ k, k < B'.length → LbcSupported ps B k (getDom B' k).1 ∧ LbcSupported ps B k (getDom B' k).2) :
+    (∀ k, k < B'.length →
+      (∃ t, inBox t B' ∧ rel .gcc ps t ∧ getI t k = (getDom B' k).1) ∧
+      (∃ t, inBox t B' ∧ rel .gcc ps t ∧ getI t k = (getDom B' k).2)) ∧
+    (∃ st', gcc ps B' = .ok (st', B') ∧ st' ≠ .inc) := gcc_port_exact_partial ps B hc hB hu st B' h hst hlbc
 
 end Nucs
